@@ -1,5 +1,6 @@
 import LlirModel.Core2
 import LlirModel.Numbering
+import LlirModel.Gep
 /-! M-Core, third fragment: FUNCTION DEFINITIONS with bodies — parameters, basic blocks (named or numbered), instructions whose operands are local
     values (names or IDs) or constants of the Core2 fragment, and terminators.
 
@@ -91,6 +92,7 @@ inductive Slot where
   | phis                 -- `[ V, %b ], [ V, %b ] ...` (operands of the current type); only as the last slot of a row
   | nums                 -- `, 1, 0` (the index path of extractvalue / insertvalue); only as the last slot of a row
   | align                -- nothing or `, align N`; only as the last slot of a row
+  | tyvals               -- `, T V` zero or more times (the indices of getelementptr); only as the last slot of a row
 
 inductive Arg where
   | ty (t : Ty)
@@ -101,11 +103,12 @@ inductive Arg where
   | phis (incs : List (Operand × Ident))
   | nums (ks : List Nat)
   | align (a : Option Nat)
+  | tyvals (ixs : List (Ty × Operand))
   deriving Inhabited
 
 /-- how the type of the result is obtained (asm newXxxInst: from the types WRITTEN in the defining instruction) -/
 inductive ResKind where
-  | none | first | cmp | loadTy | second | lastTy | elem | firstVec | shuffle | ptrOf | aggElem
+  | none | first | cmp | loadTy | second | lastTy | elem | firstVec | shuffle | ptrOf | aggElem | gep
 
 structure Row where
   hasRes : Bool
@@ -196,7 +199,9 @@ def rows : List Row := [
   ⟨true, [97, 108, 108, 111, 99, 97, 32], .void, [.ty, .align], .ptrOf, false⟩,
   -- 71: extractvalue; 72: insertvalue
   ⟨true, [101, 120, 116, 114, 97, 99, 116, 118, 97, 108, 117, 101, 32], .void, [.tyval, .nums], .aggElem, false⟩,
-  ⟨true, [105, 110, 115, 101, 114, 116, 118, 97, 108, 117, 101, 32], .void, [.tyval, .lit sComma, .tyval, .nums], .first, false⟩
+  ⟨true, [105, 110, 115, 101, 114, 116, 118, 97, 108, 117, 101, 32], .void, [.tyval, .lit sComma, .tyval, .nums], .first, false⟩,
+  -- 73: getelementptr
+  ⟨true, [103, 101, 116, 101, 108, 101, 109, 101, 110, 116, 112, 116, 114, 32], .void, [.ty, .lit sComma, .tyval, .tyvals], .gep, false⟩
 ]
 
 def phisString (useHex : Int → Bool) (cur : Ty) : List (Operand × Ident) → Bytes
@@ -215,6 +220,11 @@ def alignString : Option Nat → Bytes
   | none => []
   | some n => sAlign ++ natDec n
 
+/-- `, T V` for every index -/
+def tyvalsString (useHex : Int → Bool) : List (Ty × Operand) → Bytes
+  | [] => []
+  | (t, o) :: r => sComma ++ tyString t ++ [32] ++ operandString useHex t o ++ tyvalsString useHex r
+
 def printSlots (useHex : Int → Bool) : Ty → List Slot → List Arg → Bytes
   | _, [], _ => []
   | cur, .lit s :: fs, as => s ++ printSlots useHex cur fs as
@@ -227,6 +237,7 @@ def printSlots (useHex : Int → Bool) : Ty → List Slot → List Arg → Bytes
   | cur, .phis :: fs, .phis incs :: as => phisString useHex cur incs ++ printSlots useHex cur fs as
   | cur, .nums :: fs, .nums ks :: as => numsString ks ++ printSlots useHex cur fs as
   | cur, .align :: fs, .align a :: as => alignString a ++ printSlots useHex cur fs as
+  | cur, .tyvals :: fs, .tyvals ixs :: as => tyvalsString useHex ixs ++ printSlots useHex cur fs as
   | _, _, _ => []
 
 /-- `[ V, %b ]` groups separated by `, ` -/
@@ -270,6 +281,21 @@ def readAlign (s : Bytes) : Option (Option Nat) :=
       match parseUint63 r with
       | some n => some (some n)
       | none => none
+
+/-- `, T V` … up to the end of the line -/
+def readTyvals : Nat → Bytes → Option (List (Ty × Operand))
+  | 0, _ => none
+  | _ + 1, [] => some []
+  | f + 1, s =>
+    match TyParse.stripPrefix sComma s with
+    | none => none
+    | some r =>
+      match TyParse.parseTy (tyFuel r) r with
+      | some (t, 32 :: r1) =>
+        (match readOperand t r1 with
+         | some (o, r2) => (readTyvals f r2).map fun l => (t, o) :: l
+         | none => none)
+      | _ => none
 
 def readSlots : Ty → List Slot → Bytes → Option (List Arg × Bytes)
   | _, [], s => some ([], s)
@@ -320,6 +346,13 @@ def readSlots : Ty → List Slot → Bytes → Option (List Arg × Bytes)
      | some ks =>
        (match readSlots cur fs [] with
         | some (as, r') => some (.nums ks :: as, r')
+        | none => none)
+     | none => none)
+  | cur, .tyvals :: fs, s =>
+    (match readTyvals (s.length + 1) s with
+     | some ixs =>
+       (match readSlots cur fs [] with
+        | some (as, r') => some (.tyvals ixs :: as, r')
         | none => none)
      | none => none)
   | cur, .align :: fs, s =>
@@ -528,6 +561,7 @@ def argUses : Arg → List Ident
   | .phis incs => incs.flatMap fun p => operandUses p.1 ++ [p.2]
   | .nums _ => []
   | .align _ => []
+  | .tyvals ixs => ixs.flatMap fun p => operandUses p.2
 
 def uses (f : Func) : List Ident :=
   f.blocks.flatMap fun b => (instsOf b).flatMap fun i => i.args.flatMap argUses
@@ -580,6 +614,28 @@ def aggElem : Ty → List Nat → Option Ty
   | _, _ :: _ => none
 termination_by t ks => ks.length
 
+def tyvalsOf : List Arg → List (Ty × Operand)
+  | [] => []
+  | .tyvals l :: _ => l
+  | _ :: as => tyvalsOf as
+
+def constInts : CList → Option (List Int)
+  | .nil => some []
+  | .cons _ (.int v) r => (constInts r).map fun l => v :: l
+  | .cons _ _ _ => none
+
+/-- the index as asm/inst_memory.go getIndex classifies it -/
+def idxArg (p : Ty × Operand) : Gep.IdxArg :=
+  let (vl, sc) := match p.1 with | .vec s n _ => (n, s) | _ => (0, false)
+  let c : Option Gep.IdxConst := match p.2 with
+    | .loc _ => none
+    | .const (.int v) => some (.int v)
+    | .const .zero => some .zero
+    | .const .undef => some .undef
+    | .const (.vec es) => (match constInts es with | some vs => some (.vecInts vs) | none => some (.vecOther vl))
+    | .const _ => some (.vecOther 1)
+  ⟨c, vl, sc⟩
+
 def defTy (i : Inst) : Option Ty :=
   match rows[i.row]? with
   | none => none
@@ -596,6 +652,9 @@ def defTy (i : Inst) : Option Ty :=
     | .shuffle => (match firstTyval i.args, thirdTyval i.args with | some (.vec _ _ e), some (.vec s m _) => some (.vec s m e) | _, _ => none)
     | .ptrOf => (firstTy i.args).map fun t => .ptr t 0
     | .aggElem => (firstTyval i.args).bind fun t => aggElem t (numsOf i.args)
+    | .gep => (match firstTy i.args, firstTyval i.args with
+      | some e, some src => (match Gep.gepAsm (fun _ => none) e src ((tyvalsOf i.args).map idxArg) with | .ok t => some t | _ => none)
+      | _, _ => none)
 
 def env (f : Func) : List (Ident × Ty) :=
   f.params.map (fun p => (p.2, p.1)) ++
@@ -614,6 +673,7 @@ def retypeOperand (e : List (Ident × Ty)) (t : Ty) : Operand → Ty
 def retypeArg (e : List (Ident × Ty)) : Arg → Arg
   | .tyval t o => .tyval (retypeOperand e t o) o
   | .retv (some (t, o)) => .retv (some (retypeOperand e t o, o))
+  | .tyvals ixs => .tyvals (ixs.map fun p => (retypeOperand e p.1 p.2, p.2))
   | a => a
 
 def retypeInst (e : List (Ident × Ty)) (i : Inst) : Inst := { i with args := i.args.map (retypeArg e) }
@@ -718,6 +778,7 @@ def argOKB : Arg → Bool
   | .phis incs => !incs.isEmpty && incs.all fun p => operandOKB p.1 && identOKB p.2
   | .nums ks => ks.all fun k => decide (k < 2 ^ 63)
   | .align a => (match a with | some n => decide (n < 2 ^ 63) | none => true)
+  | .tyvals ixs => ixs.all fun p => operandOKB p.2
 
 def matchesB : List Slot → List Arg → Bool
   | [], [] => true
@@ -730,6 +791,7 @@ def matchesB : List Slot → List Arg → Bool
   | .phis :: fs, .phis _ :: as => matchesB fs as
   | .nums :: fs, .nums _ :: as => matchesB fs as
   | .align :: fs, .align _ :: as => matchesB fs as
+  | .tyvals :: fs, .tyvals _ :: as => matchesB fs as
   | _, _ => false
 
 def instOKB (i : Inst) : Bool :=
@@ -749,6 +811,7 @@ def wfSyn (f : Func) : Bool :=
 def consistentArg (e : List (Ident × Ty)) : Arg → Bool
   | .tyval t (.loc i) => (match lookup e i with | some t' => equal t' t | none => true)
   | .retv (some (t, .loc i)) => (match lookup e i with | some t' => equal t' t | none => true)
+  | .tyvals ixs => ixs.all fun p => (match p.2 with | .loc i => (match lookup e i with | some t' => equal t' p.1 | none => true) | _ => true)
   | _ => true
 
 def consistent (f : Func) : Bool :=
